@@ -318,6 +318,28 @@ theorem C05_toml_outcome (ind : Str) (v : JVal) :
       cases h : hasNullF fs <;> simp [h]
     | _ => simp [manifestTomlEx]
 
+/-- **C05 toml_integers_in_range** (token level).  The number arm of the writer
+    emits `tomlNum t` for the number token `t` (`t ++ ".0"` exactly when `t` is an
+    integer literal — `-`? digits — of magnitude ≥ 2^63, the model of
+    `if n.abs() >= 9223372036854775808.0 { push_str(".0") }`).  Whenever the
+    emitted token is a TOML integer literal, i.e. has no `.`, `e`, `E`, it is
+    `-`? digits with magnitude < 2^63: inside the signed 64-bit range every TOML
+    parser must accept. -/
+theorem C05_toml_integers_in_range {t : Str} (ht : NumTok t)
+    (h : ∀ c ∈ tomlNum t, c ≠ 46 ∧ c ≠ 101 ∧ c ≠ 69) :
+    tomlNum t = t ∧ isIntLit t = true ∧ digitsVal (intBody t) 0 < 2 ^ 63 :=
+  tomlNum_int_in_range ht h
+
+/-- the writer's number arm is `tomlNum` (at every depth, in both array layouts) -/
+theorem C05_toml_number_arm (ind : Str) (d : Nat) (sg : Bool) (t : Str) :
+    tomlValue ind d sg (.num t) = .ok (tomlNum t) := rfl
+
+/-- `tomlNum` leaves the token alone or appends `.0` to an integer literal (the same
+    number, written as a TOML float); a number token stays a number token. -/
+theorem C05_toml_number_spelling {t : Str} (ht : NumTok t) :
+    (tomlNum t = t ∨ (tomlNum t = t ++ [46, 48] ∧ isIntLit t = true)) ∧ NumTok (tomlNum t) :=
+  ⟨tomlNum_cases t, numTok_tomlNum ht⟩
+
 /-- **C05 toml_roundtrip.**  For an indent string of TOML whitespace (spaces /
     tabs; `std.manifestToml` uses two spaces) and every null-free object whose
     numbers are number tokens and whose objects have pairwise distinct keys
@@ -325,22 +347,35 @@ theorem C05_toml_outcome (ind : Str) (v : JVal) :
     succeeds, and the TOML reader `readToml` — `key = value` lines, inline arrays
     and tables, `[table]` and `[[array-of-tables]]` headers folded with TOML's
     table semantics (open header tables, closed inline values, the last item of an
-    array of tables) — returns the object with the fields of every table listed in
-    document order (`normT`: plain fields first, then sub-tables), which equals the
-    original value up to the order of object fields (`JEquiv`; TOML tables are
-    unordered). -/
+    array of tables) — returns the object with the numbers in the writer's spelling
+    (`numsF`: every token `t` as `tomlNum t`, i.e. integer tokens of magnitude ≥ 2^63
+    as the float `t.0`, the same number; see `C05_toml_number_spelling`) and the
+    fields of every table listed in document order (`normT`: plain fields first,
+    then sub-tables), which is that value up to the order of object fields
+    (`JEquiv`; TOML tables are unordered). -/
 theorem C05_toml_roundtrip (ind : Str) (hi : IndOK ind) (fs : List (Str × JVal))
     (hv : ValOK (.obj fs)) (hn : hasNullF fs = false) :
     ∃ text, manifestTomlEx ind (.obj fs) = .ok text ∧
-      readToml text = some (.obj (normT fs)) ∧ JEquiv (.obj fs) (.obj (normT fs)) := by
+      readToml text = some (.obj (normT (numsF fs))) ∧
+      JEquiv (.obj (numsF fs)) (.obj (normT (numsF fs))) := by
   obtain ⟨text, h1, h2⟩ := readToml_manifest ind hi fs hv hn
-  exact ⟨text, h1, h2, normT_equiv fs⟩
+  exact ⟨text, h1, h2, normT_equiv (numsF fs)⟩
+
+/-- … and when no number is an integer of magnitude ≥ 2^63 (`NoBigIntF`), the
+    reader returns the value itself up to field order. -/
+theorem C05_toml_roundtrip_small (ind : Str) (hi : IndOK ind) (fs : List (Str × JVal))
+    (hv : ValOK (.obj fs)) (hn : hasNullF fs = false) (hs : NoBigIntF fs) :
+    ∃ text, manifestTomlEx ind (.obj fs) = .ok text ∧
+      readToml text = some (.obj (normT fs)) ∧ JEquiv (.obj fs) (.obj (normT fs)) := by
+  have := C05_toml_roundtrip ind hi fs hv hn
+  rwa [numsF_eq_self fs hs] at this
 
 /-- `std.manifestToml(value) = std.manifestTomlEx(value, "  ")` -/
 theorem C05_toml_roundtrip_manifestToml (fs : List (Str × JVal))
     (hv : ValOK (.obj fs)) (hn : hasNullF fs = false) :
     ∃ text, manifestToml (.obj fs) = .ok text ∧
-      readToml text = some (.obj (normT fs)) ∧ JEquiv (.obj fs) (.obj (normT fs)) :=
+      readToml text = some (.obj (normT (numsF fs))) ∧
+      JEquiv (.obj (numsF fs)) (.obj (normT (numsF fs))) :=
   C05_toml_roundtrip [32, 32] (by intro c hc; simp at hc; subst hc; rfl) fs hv hn
 
 /-! ### Non-vacuity -/
@@ -406,6 +441,21 @@ example : normT exampleToml =
      ([97], .obj [([122], .str [115, 10]), ([98], .obj [([99], .num [49])])]),
      ([99], .arr [.obj [([120], .bool true)], .obj []]), ([101], .obj [])] := by
   simp [normT, plainN, subsN, arrN, isSubTable, isObj, exampleToml]
+
+/-- the 64-bit boundary: `2^63` (printed `9223372036854776000` by `Display`) and
+    `-2^63` get `.0`, the largest double below 2^63 (printed `9223372036854775000`)
+    does not; the document is
+    `a = 9223372036854776000.0` / `b = -9223372036854776000.0` / `c = 9223372036854775000` -/
+def exampleBig : List (Str × JVal) :=
+  [([97], .num [57, 50, 50, 51, 51, 55, 50, 48, 51, 54, 56, 53, 52, 55, 55, 54, 48, 48, 48]), ([98], .num (45 :: [57, 50, 50, 51, 51, 55, 50, 48, 51, 54, 56, 53, 52, 55, 55, 54, 48, 48, 48])), ([99], .num [57, 50, 50, 51, 51, 55, 50, 48, 51, 54, 56, 53, 52, 55, 55, 53, 48, 48, 48])]
+
+example : bigInt [57, 50, 50, 51, 51, 55, 50, 48, 51, 54, 56, 53, 52, 55, 55, 54, 48, 48, 48] = true ∧ bigInt (45 :: [57, 50, 50, 51, 51, 55, 50, 48, 51, 54, 56, 53, 52, 55, 55, 54, 48, 48, 48]) = true ∧ bigInt [57, 50, 50, 51, 51, 55, 50, 48, 51, 54, 56, 53, 52, 55, 55, 53, 48, 48, 48] = false := by decide
+
+example : manifestTomlEx [] (.obj exampleBig) = .ok
+    ([97, 32, 61, 32, 57, 50, 50, 51, 51, 55, 50, 48, 51, 54, 56, 53, 52, 55, 55, 54, 48, 48, 48, 46, 48] ++ 10 :: [98, 32, 61, 32, 45, 57, 50, 50, 51, 51, 55, 50, 48, 51, 54, 56, 53, 52, 55, 55, 54, 48, 48, 48, 46, 48] ++ 10 :: [99, 32, 61, 32, 57, 50, 50, 51, 51, 55, 50, 48, 51, 54, 56, 53, 52, 55, 55, 53, 48, 48, 48]) := rfl
+
+example : (manifestTomlEx [] (.obj exampleBig)).toOption.bind readToml =
+    some (.obj [([97], .num ([57, 50, 50, 51, 51, 55, 50, 48, 51, 54, 56, 53, 52, 55, 55, 54, 48, 48, 48] ++ [46, 48])), ([98], .num (45 :: [57, 50, 50, 51, 51, 55, 50, 48, 51, 54, 56, 53, 52, 55, 55, 54, 48, 48, 48] ++ [46, 48])), ([99], .num [57, 50, 50, 51, 51, 55, 50, 48, 51, 54, 56, 53, 52, 55, 55, 53, 48, 48, 48])]) := rfl
 
 example : manifestTomlEx [] (.obj [([97], .arr [.null])]) = .error .nullValue := rfl
 example : manifestTomlEx [] (.arr []) = .error .notObject := rfl
@@ -577,7 +627,11 @@ end Rsj.Yaml
 #print axioms Rsj.Toml.C05_toml_key_forms
 #print axioms Rsj.Toml.C05_toml_key_roundtrip
 #print axioms Rsj.Toml.C05_toml_outcome
+#print axioms Rsj.Toml.C05_toml_integers_in_range
+#print axioms Rsj.Toml.C05_toml_number_arm
+#print axioms Rsj.Toml.C05_toml_number_spelling
 #print axioms Rsj.Toml.C05_toml_roundtrip
+#print axioms Rsj.Toml.C05_toml_roundtrip_small
 #print axioms Rsj.Toml.C05_toml_roundtrip_manifestToml
 #print axioms Rsj.Yaml.C05_yaml_roundtrip_full_fails
 #print axioms Rsj.Yaml.C05_yaml_roundtrip_partial
